@@ -150,6 +150,8 @@ structure SRoute where
       it sets through `SetStatus`, and whether it returns an error -/
   setStatus : Option Nat := none
   fails  : Bool := false
+  /-- the method's last result is a custom error type, not plain `error` -/
+  customErr : Bool := false
   deriving Repr, Inhabited
 
 /-- `getStatusCode`: the status the operation set itself, else 500 for a failed operation, else 200 / 204 by the
@@ -157,7 +159,10 @@ structure SRoute where
 def replyStatus (sr : SRoute) : Nat :=
   match sr.setStatus with
   | some s => s
-  | none => if sr.fails then 500 else if sr.r.hasReturn then 200 else 204
+  -- `getStatusCode(&controller, hasReturn, opError)` is evaluated BEFORE the templates' own "is this an error" test, and
+  -- `opError` of a custom error type (a value, or a typed nil pointer) is never a nil `error` interface: such a method
+  -- answers 500 even when it succeeds, on all five engines alike (observed; outside the listed properties)
+  | none => if sr.fails || sr.customErr then 500 else if sr.r.hasReturn then 200 else 204
 
 def denyCallback (deny : List String) : Callback := fun _ c => if deny.contains c.scheme then some ("denied " ++ c.scheme) else none
 
